@@ -152,6 +152,7 @@ class RefMem:
         self.cleared = set()
         self.stray_self = [None] * n  # slot whose address a stray copy carries
         self.unrepresentable = False  # the last array allocation asked for more than SIZE_MAX bytes
+        self.cbw = None               # header `cbwreset w`: every clear callback resets weak pointer w
 
     # ------------------------------------------------------------ domain
     def disposable(self, i):
@@ -197,9 +198,24 @@ class RefMem:
         if not a.owners:
             if a.cb is not None:
                 exp.append(('clear', a.m, a.cb))
+                self.cb_fire(exp, a)
             exp.append(('free', a.m))
             if not a.weaks:
                 exp.append(('free', a.d))
+
+    def cb_fire(self, exp, cur):
+        """what the harness's clear callback does besides logging (header cbwreset): reset weak pointer w.  The
+        resetting owner of `cur` still counts as a reference of its bookkeeping block while the callback runs."""
+        w = self.cbw
+        if w is None:
+            return
+        aw = self.ref[w]
+        self.ref[w] = None
+        if aw is None:
+            return
+        aw.weaks.discard(w)
+        if aw is not cur and not aw.owners and not aw.weaks:
+            exp.append(('free', aw.d))
 
     def leave_weak(self, i, exp):
         a = self.ref[i]
@@ -399,6 +415,7 @@ class RefMem:
         if r:
             if r[1] is not None:
                 exp.append(('clear', r[0], r[1]))
+                self.cb_fire(exp, None)
             exp.append(('free', r[0]))
 
     def array_new(self, a, nm, sz, ext, al, exp):
@@ -571,6 +588,9 @@ def oracle(case, impl):
     -> None or (key, message)"""
     kinds, exts, _, _ = header_of(case)
     ref = RefMem(kinds, exts)
+    for h in case.header:
+        if h.split()[0] == 'cbwreset':
+            ref.cbw = int(h.split()[1])
     al = TraceAllocator()
     try:
         for i, op in enumerate(case.ops):
@@ -667,7 +687,7 @@ class Sim:
 
 # ---------------------------------------------------------------- generators
 
-HEADER_WORDS = ('pool', 'ext', 'fail', 'failfrom', 'cbprobe', 'constapi')
+HEADER_WORDS = ('pool', 'ext', 'fail', 'failfrom', 'cbprobe', 'cbwreset', 'constapi')
 
 
 def slots_of(kinds, k):
